@@ -3,7 +3,7 @@
     sumor -> OCaml's); N / positive / nat stay Coq's inductives. *)
 Require Extraction.
 Require Import ExtrOcamlBasic.
-From LsmV Require Import Base.Bytes Model.Entry Model.Tree Model.Stream Model.History Model.Cert.
+From LsmV Require Import Base.Bytes Model.Entry Model.Tree Model.Stream Model.History Model.Cert Model.Marks.
 
 Extraction Language OCaml.
 
@@ -14,5 +14,5 @@ Extraction "../ocaml/model.ml"
   sorted_b table_meta_ok recency_b newer_than nodup_N_b run_disjoint_b all_tables all_runs
   run_stream cstream merge_sorted no_filter
   version_for_snapshot maintenance latest SEQ_MAX
-  content_agrees content_diff subset_of_history highest_persisted highest_memtable highest_overall
+  content_agrees content_diff subset_of_history highest_persisted highest_memtable highest_overall impl_highest_persisted impl_highest_memtable impl_highest
   N.add N.mul N.sub N.eqb N.ltb N.leb N.of_nat N.to_nat.
